@@ -44,6 +44,13 @@ CLAIMS["C07"] = (
     "DESIGN.md §2 C07",
 )
 
+CLAIMS["C08"] = (
+    "scaling-law abstract interpretation (monomial domain, reduced-axes and cross-batch tracking) + closed forms + preservation-table ordering check of the factory composites",
+    "Total/average/per-antenna power constraints: the result is derived to be x*s with s>0 deterministic and s^2*current power = target exactly (literal eps<=1e-6 is the identity), with the current power reduced per item (per antenna) and no statistic across the batch in the factor; the zero-signal substitute has the target power; batched and single-item branches obey the same law. Peak amplitude: every return is the symmetric clamp. PAPR: clipping stores keep the direction v/(|v|+eps); one final clip outside the loop on every path with bound^2 = avg_power*max_papr*c, c<=1. Composites: sequential loop; for every configuration of the OFDM/MIMO factories the derived stage order is checked against a reasoned preservation table. These are necessary structural conditions for all inputs; convergence of iterative clipping and numeric tolerances are not decided.",
+    "Trusted: scaling.py transfer functions, the preservation table in props/c08.py (each entry reasoned), torch reshape/sum/mean/clamp semantics. Findings recorded in known_findings.json (factory orderings pinned by the suite or not repairable by ordering).",
+    "DESIGN.md §2 C08",
+)
+
 NOT_APPLICABLE = {
     "C09": "conjunction at run time of C02/C05/C06/C10/C11/C15 over component pairings and adversarial channels; its structural preconditions (stage order, LLR polarity, label agreement, block framing) are decided under C17, C15, C05, C20 - no additional clause is visible in the shape of the code (DESIGN.md §2 C09)",
 }
